@@ -248,8 +248,14 @@ def oracle(inp, obs):
     t = inp["target"]
     if t in ("cl", "lf"):
         per, events = obs
+        # a lock request that is refused or fails must leave the lock state unchanged
+        pm, pc = None, 0
+        for o, (out, m, c) in zip(inp["ops"], per):
+            if isinstance(out, Err) and o != "u" and (m, c) != (pm, pc):
+                return f"{o} raised {out} but changed the lock state from {(pm, pc)} to {(m, c)}"
+            pm, pc = m, c
         if any(k == "raise" for k, _ in inp["env"]):
-            return None      # failure behaviour is checked by the model comparison only
+            return None      # the remaining failure behaviour is checked by the model comparison only
         depth, mode, bal, ei = 0, None, 0, 0
         for o, (out, m, c) in zip(inp["ops"], per):
             ok = not isinstance(out, Err)
